@@ -12,11 +12,10 @@ EXTENDS PartRefs, Json, IOUtils
 Trace == ndJsonDeserialize(IOEnv.TRACE_FILE)
 VARIABLES l, bad
 
-ToSet(q) == {q[i] : i \in DOMAIN q}
 CallOf(e) == Call(e.e, e.k, e.c, e.s, e.u, e.n, e.src, e.j)
 
 LoggedDdx(e) == {[st |-> x.st, c |-> x.c, id |-> x.id] : x \in ToSet(e.st.ddx)}
-LoggedStray(e) == {[kind |-> x.kind, id |-> x.id] : x \in ToSet(e.st.stray)}
+LoggedStray(e) == {[kind |-> x.kind, st |-> x.st] : x \in ToSet(e.st.stray)}
 
 ExpReadable(T, k) ==
   IF T.obj[k] = <<>> THEN "absent"
@@ -41,8 +40,8 @@ mRd(T, e)   == /\ e.rd.st = T.rd.st /\ e.rd.err = T.rd.err
                /\ e.rd.gk => e.rd.got = T.rd.got
 
 Differs(T, e) ==
-  {x \in {"res", "reg", "info", "obj", "upl", "ddx", "phys", "stray", "readable", "gc", "rd"} :
-     CASE x = "res" -> ~mRes(T, e)   [] x = "reg" -> ~mReg(T, e)   [] x = "info" -> ~mInfo(T, e)
+  {x \in {"res", "reg", "info", "obj", "upl", "ddx", "phys", "stray", "readable", "gc", "rd", "rows"} :
+     CASE x = "res" -> ~mRes(T, e)   [] x = "rows" -> ~e.st.rowsok   [] x = "reg" -> ~mReg(T, e)   [] x = "info" -> ~mInfo(T, e)
        [] x = "obj" -> ~mObj(T, e)   [] x = "upl" -> ~mUpl(T, e)   [] x = "ddx" -> ~mDdx(T, e)
        [] x = "phys" -> ~mPhys(T, e) [] x = "stray" -> ~mStray(T, e) [] x = "readable" -> ~mRead(T, e)
        [] x = "gc" -> ~mGc(T, e)     [] x = "rd" -> ~mRd(T, e)}
@@ -77,11 +76,16 @@ Adopted(e) ==
              !.ddx = LoggedDdx(e),
              !.phys = [s \in Stores |-> ToSet(e.st.phys[s])],
              !.stray = LoggedStray(e),
-             !.nid = n + 1, !.old = 1..n, !.faulted = TRUE, !.res = e.res]
+             !.nid = n + 1, !.old = 1..n, !.faulted = e.faulted, !.res = e.res]
 
 \* ------------------------------------------------------------- verdicts
-StrayTag(T) == IF \A x \in T.stray : x.kind = "backup" THEN "D-C09-stray-backup"
-               ELSE IF \A x \in T.stray : x.kind = "temp" THEN "D-C09-stray-temp" ELSE ""
+
+\* after a crash only the reclaim direction belongs to C09 (a referenced part
+\* lost by the crash itself is C10's concern)
+ReclaimedIn(T) ==
+  /\ \A s \in Stores : T.phys[s] \subseteq Referenced(T)
+  /\ \A id \in Ids : T.reg[id] # -1 => (id \in Referenced(T) /\ T.reg[id] = RowCount(T, id))
+  /\ \A x \in T.ddx : x.id \in Referenced(T)
 
 Findings(T, e) ==
      (IF NoReferencedPartMissingIn(T) /\ \A k \in Keys : e.st.readable[k].state # "error"
@@ -92,12 +96,23 @@ Findings(T, e) ==
       THEN {} ELSE {[prop |-> "C08", tag |-> "", what |-> "part_dedup_index maps to a wrong or unreferenced part"]})
   \cup (IF ReaderOutcomeIn(T) /\ ((e.rd.st = "done" /\ ~e.rd.err) => e.rd.nb = e.rd.cl)
       THEN {} ELSE {[prop |-> "C40", tag |-> "", what |-> "reader outcome: delivered bytes are not the resolved version / short body reported complete / SQL-backed read failed"]})
-  \cup (IF e.e # "Final" \/ ConvergedIn(T)
-      THEN {} ELSE {[prop |-> "C09", tag |-> IF T.stray # {} /\ ConvergedIn([T EXCEPT !.stray = {}]) THEN StrayTag(T) ELSE "",
+  \cup (IF e.e # "Final" \/ (IF e.mode = "crash" THEN ReclaimedIn(T) ELSE ConvergedIn([T EXCEPT !.stray = {}]))
+      THEN {} ELSE {[prop |-> "C09", tag |-> "",
                      what |-> "after quiescence, grace window and collector runs the stores / registry / dedup index are not the referenced set"]})
+  \cup (IF e.e # "Final" THEN {}
+      ELSE {[prop |-> "C09", tag |-> IF x.kind \in {"temp", "backup"} /\ StrayTagOf(x.kind) \in Deviations THEN StrayTagOf(x.kind) ELSE "",
+             what |-> "a crash leftover file (" \o x.kind \o ") in a part store directory is never reclaimed"] : x \in T.stray})
+
+\* one recorded concurrent read of the stress run: want = content of the version
+\* whose ETag GetObject returned, got = decoded body
+ReadFindings(e) ==
+  IF /\ PrefixOf(e.got, e.want)
+     /\ ~e.err => (e.got = e.want /\ e.nb = e.cl)
+     /\ e.sqlonly => ~e.err
+  THEN {} ELSE {[prop |-> "C40", tag |-> "", what |-> "concurrent read: body is not the resolved version / short body reported complete / SQL-backed read failed"]}
 
 Report(T, e, i) ==
-  \A f \in Findings(T, e) :
+  \A f \in {g \in Findings(T, e) : ~(e.mode = "crash" /\ g.prop # "C09")} :
      PrintT(ToJson([l |-> i, verdict |-> "finding", prop |-> f.prop, tag |-> f.tag, what |-> f.what, state |-> Proj(T)]))
 
 Diag(T, e, i, why) ==
@@ -111,7 +126,12 @@ TNext ==
   /\ LET e == Trace[l] IN
      IF e.e = "reset" THEN S' = S0 /\ bad' = FALSE
      ELSE IF bad THEN UNCHANGED <<S, bad>>
-     ELSE IF e.e = "Adopt" THEN S' = Adopted(e) /\ bad' = FALSE /\ Report(Adopted(e), e, l)
+     ELSE IF e.e = "Read"
+          THEN /\ UNCHANGED <<S, bad>>
+               /\ \A f \in ReadFindings(e) : PrintT(ToJson([l |-> l, verdict |-> "finding", prop |-> f.prop, tag |-> f.tag, what |-> f.what, state |-> e]))
+     ELSE IF e.e = "Adopt"
+          THEN IF e.st.rowsok THEN S' = Adopted(e) /\ bad' = FALSE /\ Report(Adopted(e), e, l)
+               ELSE Diag(S, e, l, "parts rows outside the model") /\ bad' = TRUE /\ UNCHANGED S
      ELSE IF e.e = "Final"
           THEN LET T == [S EXCEPT !.res = "final"] IN
                IF Differs(T, e) = {} THEN S' = T /\ bad' = FALSE /\ Report(T, e, l)
